@@ -143,8 +143,10 @@ Entitled(r) ==
     ELSE IF r.op = "delete" THEN Writable
     ELSE IF r.op = "trashlist"
          THEN {v \in Writable : /\ (r.mount = 0 \/ r.mount = v)
-                                /\ seen[v].st # "absent"
-                                /\ seen[v].mt = r.req}
+                                /\ \/ seen[v].st # "absent" /\ seen[v].mt = r.req
+                                   \* an untrash since the scan (or still running) may have put back a
+                                   \* copy with another timestamp: the scan cannot tell, so allow
+                                   \/ unt \/ \E j \in Ids : pend[j].op = "untrash"}
     ELSE {}
 
 (* obligations on the reply *)
